@@ -126,7 +126,11 @@ def hashseed_pages(seeds=None):
     files["src/main.f90"] = files["src/main.f90"].replace("program driver\n", "program driver\n  use unknown_zeta\n  use unknown_alpha\n  use unknown_mid\n  use types\n  use par\n")
     files["src/f0.f90"] = files["src/f0.f90"].replace("  implicit none\n", "  use types\n  use par\n  use unknown_b\n  use unknown_a\n  implicit none\n  real :: work(3)\n  save :: work\n  target :: work\n"
                                                       "  volatile :: work\n  asynchronous :: work\n", 1)
-    meta = "src_dir: ./src\noutput_dir: ./doc\ngraph: false\nsearch: true\ncreation_date: fixed\n"
+    # one include file name in three searched directories: the first directory of the `include` option that has it is the one read
+    for k, d in enumerate(("inc_a", "inc_b", "inc_c")):
+        files[f"inc/{d}/params.inc"] = f"  integer, parameter :: from_{d} = {k}\n    !! declared in {d}/params.inc\n"
+    files["src/withinc.f90"] = "module withinc\n  !! includes params.inc\n  implicit none\n  include \"params.inc\"\nend module withinc\n"
+    meta = "src_dir: ./src\noutput_dir: ./doc\ngraph: false\nsearch: true\ncreation_date: fixed\ninclude: ./inc/inc_b\n         ./inc/inc_a\n         ./inc/inc_c\n"
     ref = None
     for sd in seeds:
         os.makedirs(realrun.TMPROOT, exist_ok=True)
@@ -143,6 +147,9 @@ def hashseed_pages(seeds=None):
                             snap[os.path.relpath(p, os.path.join(pd, "doc"))] = open(p, encoding="utf-8", errors="replace").read().replace(sb, "<SANDBOX>")
         finally:
             shutil.rmtree(sb, ignore_errors=True)
+        if "from_inc_b" not in snap.get("module/withinc.html", ""):
+            return {"confirmed": True, "input": {"files": files, "options": meta, "PYTHONHASHSEED": sd}, "actual": "module/withinc.html does not document from_inc_b",
+                    "expected": "the include file of the first directory of the `include` option (inc_b) is the one read", "how": "full run; page of the including module"}
         if ref is None:
             ref, refseed = snap, sd
             continue
